@@ -1,3 +1,5 @@
 pub mod textmut;
 pub mod layout;
 pub mod prog;
+pub mod sierra_args;
+pub mod rare;
